@@ -97,6 +97,7 @@ inline std::istream& operator>>(std::istream &in, type &r)
 {
     std::string val;
     in >> val;
+    amgcl::detail::reject_trailing_text(in, val);
 
     if (val == "gauss_seidel")
         r = gauss_seidel;
